@@ -17,6 +17,96 @@ pub open spec fn pos_ok(pos: Seq<usize>, n: nat) -> bool {
 }
 pub open spec fn comb_wf(c: &Combinations) -> bool {
     c.len >= 1 && c.original@.len() > c.len && c.possition@.len() == c.len && sorted_usize(c.original@) && pos_ok(c.possition@, c.original@.len())
+    && (!c.started ==> forall|t: int| 0 <= t < c.len ==> (#[trigger] c.possition@[t]) == t)       // before the first call: positions 0, 1, .., len-1
+}
+// ---- the ORDER in which selections are handed out: by their value sequences orig[q_0], orig[q_1], .. ----
+pub open spec fn valid_sel(orig: Seq<usize>, q: Seq<usize>, k: nat) -> bool { q.len() == k && pos_ok(q, orig.len()) }
+pub open spec fn lex_gt_at(orig: Seq<usize>, q: Seq<usize>, p: Seq<usize>, t: int) -> bool {
+    0 <= t < p.len() && q.len() == p.len() && (forall|s: int| 0 <= s < t ==> orig[(#[trigger] q[s]) as int] == orig[p[s] as int]) && orig[q[t] as int] > orig[p[t] as int]
+}
+pub open spec fn lex_gt(orig: Seq<usize>, q: Seq<usize>, p: Seq<usize>) -> bool { exists|t: int| #[trigger] lex_gt_at(orig, q, p, t) }
+pub open spec fn same_vals(orig: Seq<usize>, q: Seq<usize>, p: Seq<usize>) -> bool { q.len() == p.len() && forall|s: int| 0 <= s < p.len() ==> orig[(#[trigger] q[s]) as int] == orig[p[s] as int] }
+pub open spec fn lex_ge(orig: Seq<usize>, q: Seq<usize>, p: Seq<usize>) -> bool { same_vals(orig, q, p) || lex_gt(orig, q, p) }
+// slot len-i' already holds the largest value any selection can have there
+pub open spec fn slot_max(orig: Seq<usize>, p: Seq<usize>, ip: int) -> bool { orig[p[p.len() - ip] as int] >= orig[orig.len() - ip] }
+pub proof fn lemma_sel_gap(q: Seq<usize>, n: nat, t: int, s: int)
+    requires pos_ok(q, n), 0 <= t, 0 <= s, t + s < q.len()
+    ensures q[t + s] >= q[t] + s
+    decreases s
+{ if s > 0 { lemma_sel_gap(q, n, t, s - 1); assert(q[t + s - 1] < q[t + s]); } }
+pub proof fn lemma_sel_upper(q: Seq<usize>, n: nat, t: int)
+    requires pos_ok(q, n), 0 <= t < q.len()
+    ensures q[t] + (q.len() - t) <= n
+{ lemma_sel_gap(q, n, t, q.len() - 1 - t); assert(q[q.len() - 1] < n); }
+// equal values before t0 and pointwise >= from t0 on: lexicographically >=
+pub proof fn lemma_pointwise_ge(orig: Seq<usize>, q: Seq<usize>, p: Seq<usize>, t0: int)
+    requires q.len() == p.len(), 0 <= t0 <= p.len(), forall|s: int| 0 <= s < t0 ==> orig[(#[trigger] q[s]) as int] == orig[p[s] as int],
+        forall|s: int| t0 <= s < p.len() ==> orig[(#[trigger] q[s]) as int] >= orig[p[s] as int]
+    ensures lex_ge(orig, q, p)
+    decreases p.len() - t0
+{
+    if t0 == p.len() { assert(same_vals(orig, q, p)); }
+    else if orig[q[t0] as int] > orig[p[t0] as int] { assert(lex_gt_at(orig, q, p, t0)); }
+    else { lemma_pointwise_ge(orig, q, p, t0 + 1); }
+}
+// FIRST selection (positions 0..len-1) is the least one
+pub proof fn lemma_first_is_least(orig: Seq<usize>, p: Seq<usize>, q: Seq<usize>)
+    requires sorted_usize(orig), valid_sel(orig, q, p.len()), forall|t: int| 0 <= t < p.len() ==> (#[trigger] p[t]) == t
+    ensures lex_ge(orig, q, p)
+{
+    assert forall|s: int| 0 <= s < p.len() implies orig[(#[trigger] q[s]) as int] >= orig[p[s] as int] by { lemma_sel_gap(q, orig.len(), 0, s); }
+    lemma_pointwise_ge(orig, q, p, 0);
+}
+// `false` is returned only at the GREATEST selection: every slot already holds its largest possible value
+pub proof fn lemma_last_is_greatest(orig: Seq<usize>, p: Seq<usize>, q: Seq<usize>)
+    requires sorted_usize(orig), valid_sel(orig, q, p.len()), pos_ok(p, orig.len()), forall|ip: int| 1 <= ip <= p.len() ==> #[trigger] slot_max(orig, p, ip)
+    ensures !lex_gt(orig, q, p)
+{
+    if lex_gt(orig, q, p) {
+        let t = choose|t: int| #[trigger] lex_gt_at(orig, q, p, t);
+        lemma_sel_upper(q, orig.len(), t);
+        assert(slot_max(orig, p, p.len() - t));
+    }
+}
+// advancing the LAST position to the next distinct value gives the immediate successor
+pub proof fn lemma_succ_last(orig: Seq<usize>, p: Seq<usize>, p1: Seq<usize>, inew: int, q: Seq<usize>)
+    requires sorted_usize(orig), pos_ok(p, orig.len()), p.len() >= 1, p1 == p.update(p.len() - 1, inew as usize), p[p.len() - 1] < inew < orig.len(),
+        forall|x: int| p[p.len() - 1] <= x < inew ==> (#[trigger] orig[x]) == orig[p[p.len() - 1] as int],
+        valid_sel(orig, q, p.len()), lex_gt(orig, q, p)
+    ensures lex_ge(orig, q, p1)
+{
+    let k = p.len() as int; let t = choose|t: int| #[trigger] lex_gt_at(orig, q, p, t);
+    if t < k - 1 { assert(lex_gt_at(orig, q, p1, t)); }
+    else {
+        let cur = orig[p[k - 1] as int];
+        assert(q[t] >= inew) by { if q[t] < inew { if q[t] >= p[k - 1] { assert(orig[q[t] as int] == cur); } else { assert(orig[q[t] as int] <= cur); } } }
+        lemma_pointwise_ge(orig, q, p1, k - 1);
+    }
+}
+// bumping slot len-i to the first larger value and packing the following slots right behind it gives the immediate successor
+pub proof fn lemma_succ_bump(orig: Seq<usize>, p: Seq<usize>, p1: Seq<usize>, i: int, j: int, q: Seq<usize>)
+    requires sorted_usize(orig), pos_ok(p, orig.len()), 2 <= i <= p.len(), p1.len() == p.len(),
+        forall|a: int| 0 <= a < p.len() - i ==> p1[a] == p[a], forall|a: int| p.len() - i <= a < p.len() ==> (#[trigger] p1[a]) == j + (a - (p.len() - i)),
+        p[p.len() - i] < j, j + i <= orig.len(), orig[j] > orig[p[p.len() - i] as int],
+        forall|x: int| p[p.len() - i] < x < j ==> (#[trigger] orig[x]) <= orig[p[p.len() - i] as int],
+        forall|ip: int| 1 <= ip < i ==> #[trigger] slot_max(orig, p, ip),
+        valid_sel(orig, q, p.len()), lex_gt(orig, q, p)
+    ensures lex_ge(orig, q, p1)
+{
+    let k = p.len() as int; let t = choose|t: int| #[trigger] lex_gt_at(orig, q, p, t); let lastpos = p[k - i]; let val = orig[lastpos as int];
+    if t < k - i { assert(lex_gt_at(orig, q, p1, t)); }
+    else if t > k - i {
+        lemma_sel_upper(q, orig.len(), t);
+        assert(slot_max(orig, p, k - t));
+        assert(false);
+    } else {
+        assert(q[t] >= j) by { if q[t] < j { if q[t] > lastpos { assert(orig[q[t] as int] <= val); } else { assert(orig[q[t] as int] <= val); } } }
+        assert forall|s: int| t <= s < k implies orig[(#[trigger] q[s]) as int] >= orig[p1[s] as int] by {
+            lemma_sel_gap(q, orig.len(), t, s - t);
+            assert(p1[s] == j + (s - (k - i)));
+        }
+        lemma_pointwise_ge(orig, q, p1, t);
+    }
 }
 // the selection at the current positions
 pub open spec fn selected(c: &Combinations, col: Seq<usize>) -> bool {
@@ -64,14 +154,20 @@ impl Combinations {
         // after the first call every selection is lexicographically greater (as a sequence of VALUES) than the previous one: no selection is handed out twice
         (r && old(self).started) ==> lex_greater(old(self).original@, old(self).possition@, final(self).possition@),   // name=pst13.Combinations.next_combination.strictly_increasing_hence_no_duplicates props=C15
         final(self).started, (!old(self).started) ==> (r && final(self).possition@ == old(self).possition@),
+        // EXHAUSTIVE, in order: the first selection is the least one; each later one is the IMMEDIATE successor of the one before (no selection's value
+        // sequence lies strictly between); `false` comes only after the greatest one
+        (!old(self).started) ==> (forall|q: Seq<usize>| #[trigger] valid_sel(old(self).original@, q, old(self).len as nat) ==> lex_ge(old(self).original@, q, final(self).possition@)),   // name=pst13.Combinations.next_combination.first_selection_is_the_least props=C15
+        (r && old(self).started) ==> (forall|q: Seq<usize>| (#[trigger] valid_sel(old(self).original@, q, old(self).len as nat) && lex_gt(old(self).original@, q, old(self).possition@))
+            ==> lex_ge(old(self).original@, q, final(self).possition@)),   // name=pst13.Combinations.next_combination.next_selection_is_the_immediate_successor props=C15
+        (!r) ==> (forall|q: Seq<usize>| #[trigger] valid_sel(old(self).original@, q, old(self).len as nat) ==> !lex_gt(old(self).original@, q, old(self).possition@)),   // name=pst13.Combinations.next_combination.false_only_after_the_greatest_selection props=C15
 //@body
 //@rw 3 /self\.insert\(&mut comb\)/ => self.insert(comb)
 //@after start
         let ghost orig0 = self.original@; let ghost pos0 = self.possition@; let ghost len0 = self.len;
 //@loop 1 kw=for name=it1
-                    invariant orig0 == old(self).original@, pos0 == old(self).possition@, len0 == old(self).len, old(self).started, comb_wf(self), self.original@ == orig0, self.possition@ == pos0, self.len == len0, org_len == orig0.len(), self.started,
+                    invariant (forall|ip: int| 1 <= ip < 2 + it1.index@ ==> #[trigger] slot_max(orig0, pos0, ip)), orig0 == old(self).original@, pos0 == old(self).possition@, len0 == old(self).len, old(self).started, comb_wf(self), self.original@ == orig0, self.possition@ == pos0, self.len == len0, org_len == orig0.len(), self.started,
 //@loop 2 kw=for name=it2
-                            invariant orig0 == old(self).original@, pos0 == old(self).possition@, len0 == old(self).len, old(self).started, comb_wf(self), self.original@ == orig0, self.possition@ == pos0, self.len == len0, org_len == orig0.len(), self.started,
+                            invariant (forall|ip: int| 1 <= ip < i ==> #[trigger] slot_max(orig0, pos0, ip)), orig0 == old(self).original@, pos0 == old(self).possition@, len0 == old(self).len, old(self).started, comb_wf(self), self.original@ == orig0, self.possition@ == pos0, self.len == len0, org_len == orig0.len(), self.started,
                                 2 <= i <= len0, lastpos == pos0[len0 - i], lastpos < org_len - i, *val == orig0[lastpos as int], orig0[lastpos as int] < orig0[org_len - i],
                                 forall|t: int| lastpos < t < j ==> orig0[t] <= *val,
 //@loop 3 kw=for name=it3
@@ -97,11 +193,35 @@ impl Combinations {
                                     }
                                 }
 //@after /self\.insert\(&mut comb\);/ #2
-                                proof { assert(lex_at(orig0, pos0, self.possition@, len0 - i)); assert(lex_greater(orig0, pos0, self.possition@)); }
+                                proof {
+                                    assert(lex_at(orig0, pos0, self.possition@, len0 - i)); assert(lex_greater(orig0, pos0, self.possition@));
+                                    let p1 = self.possition@;
+                                    assert forall|q: Seq<usize>| (#[trigger] valid_sel(orig0, q, len0 as nat) && lex_gt(orig0, q, pos0)) implies lex_ge(orig0, q, p1) by {
+                                        lemma_succ_bump(orig0, pos0, p1, i as int, j as int, q);
+                                    }
+                                }
 //@after /self\.insert\(&mut comb\);/ #3
-                proof { assert(lex_at(orig0, pos0, self.possition@, len0 - 1)); assert(lex_greater(orig0, pos0, self.possition@)); }
+                proof {
+                    assert(lex_at(orig0, pos0, self.possition@, len0 - 1)); assert(lex_greater(orig0, pos0, self.possition@));
+                    let p1 = self.possition@;
+                    assert(p1 =~= pos0.update(len0 - 1, i));
+                    assert forall|q: Seq<usize>| (#[trigger] valid_sel(orig0, q, len0 as nat) && lex_gt(orig0, q, pos0)) implies lex_ge(orig0, q, p1) by {
+                        lemma_succ_last(orig0, pos0, p1, i as int, q);
+                    }
+                }
+//@after /self\.insert\(&mut comb\);/ #1
+            proof {
+                assert forall|q: Seq<usize>| #[trigger] valid_sel(orig0, q, len0 as nat) implies lex_ge(orig0, q, pos0) by { lemma_first_is_least(orig0, pos0, q); }
+            }
+//@afterloop 2
+                        proof { assert(orig0[org_len - i] <= *val); assert(false); }
+//@afterloop 1
+                proof {
+                    assert forall|q: Seq<usize>| #[trigger] valid_sel(orig0, q, len0 as nat) implies !lex_gt(orig0, q, pos0) by { lemma_last_is_greatest(orig0, pos0, q); }
+                }
 //@loop 4 kw=while
                     invariant self.original@ == orig0, self.possition@ == pos0, self.len == len0, org_len == orig0.len(), comb_wf(self),
+                        (forall|x: int| pos0[len0 - 1] <= x < i ==> (#[trigger] orig0[x]) == *current),
                         pos0[len0 - 1] <= i < org_len, *next == orig0[i as int], *current == orig0[pos0[len0 - 1] as int], orig0[pos0[len0 - 1] as int] != orig0[org_len - 1],
                     decreases org_len - i
 //@rw 1 /self\.possition\[self\.len - i \+ k\] = j \+ k;/ => self.possition.set(self.len - i + k, j + k);
@@ -116,8 +236,79 @@ impl Combinations {
         // every selection handed out has `len` entries, taken from the (sorted) input at strictly increasing positions
         r is Some ==> selected(final(self), r->Some_0@),   // name=pst13.Combinations.next.selection_of_len_entries_of_the_input props=C15
         (r is Some && old(self).started) ==> lex_greater(old(self).original@, old(self).possition@, final(self).possition@),   // name=pst13.Combinations.next.no_selection_twice props=C15
+        (!old(self).started) ==> (r is Some && forall|q: Seq<usize>| #[trigger] valid_sel(old(self).original@, q, old(self).len as nat) ==> lex_ge(old(self).original@, q, final(self).possition@)),   // name=pst13.Combinations.next.starts_at_the_least_selection props=C15
+        (r is Some && old(self).started) ==> (forall|q: Seq<usize>| (#[trigger] valid_sel(old(self).original@, q, old(self).len as nat) && lex_gt(old(self).original@, q, old(self).possition@))
+            ==> lex_ge(old(self).original@, q, final(self).possition@)),   // name=pst13.Combinations.next.no_selection_skipped props=C15
+        (r is None) ==> (forall|q: Seq<usize>| #[trigger] valid_sel(old(self).original@, q, old(self).len as nat) ==> !lex_gt(old(self).original@, q, old(self).possition@)),   // name=pst13.Combinations.next.none_only_after_the_greatest_selection props=C15
 //@body
 //@rw 1 /let mut vals = Vec::with_capacity\(self\.len\);/ => let mut vals: Vec<usize> = Vec::with_capacity(self.len);
 //@rw 1 /Self::Item/ => Vec<usize>
 //@end
 }
+// ======================= C15: what a complete run of the enumerator lists =======================
+// A run = the position vectors after the successive calls that returned a selection (ps[0] after the first call, ...), ended by the call that
+// returned None.  From the three per-call clauses proved above (first is least / next is the immediate successor / None only after the greatest),
+// EVERY valid selection's value sequence is the value sequence of some listed selection: no sub-multiset is missing.  (That none occurs twice is
+// the strict increase proved per call.)
+proof fn lemma_run_from(orig: Seq<usize>, ps: Seq<Seq<usize>>, k: nat, q: Seq<usize>, i: int)
+    requires 0 <= i < ps.len(), valid_sel(orig, q, k), lex_ge(orig, q, ps[i]),
+        forall|a: int, q1: Seq<usize>| 0 <= a < ps.len() - 1 && #[trigger] valid_sel(orig, q1, k) && lex_gt(orig, q1, #[trigger] ps[a]) ==> lex_ge(orig, q1, ps[a + 1]),
+        forall|q1: Seq<usize>| #[trigger] valid_sel(orig, q1, k) ==> !lex_gt(orig, q1, ps[ps.len() - 1]),
+    ensures exists|b: int| 0 <= b < ps.len() && same_vals(orig, q, #[trigger] ps[b])
+    decreases ps.len() - i
+{
+    if same_vals(orig, q, ps[i]) { } else {
+        assert(lex_gt(orig, q, ps[i]));
+        if i == ps.len() - 1 { assert(false); } else { assert(lex_ge(orig, q, ps[i + 1])); lemma_run_from(orig, ps, k, q, i + 1); }
+    }
+}
+//@lemma props=C15
+pub proof fn lemma_enumeration_is_exhaustive(orig: Seq<usize>, ps: Seq<Seq<usize>>, k: nat, q: Seq<usize>)
+    requires ps.len() >= 1, valid_sel(orig, q, k),
+        forall|q1: Seq<usize>| #[trigger] valid_sel(orig, q1, k) ==> lex_ge(orig, q1, ps[0]),                                             // clause first_selection_is_the_least
+        forall|a: int, q1: Seq<usize>| 0 <= a < ps.len() - 1 && #[trigger] valid_sel(orig, q1, k) && lex_gt(orig, q1, #[trigger] ps[a]) ==> lex_ge(orig, q1, ps[a + 1]),   // clause next_selection_is_the_immediate_successor
+        forall|q1: Seq<usize>| #[trigger] valid_sel(orig, q1, k) ==> !lex_gt(orig, q1, ps[ps.len() - 1]),                                   // clause false_only_after_the_greatest_selection
+    ensures exists|b: int| 0 <= b < ps.len() && same_vals(orig, q, #[trigger] ps[b])
+{ lemma_run_from(orig, ps, k, q, 0); }
+// ======================= C15: every monomial of degree k <= d is a selection of the variable list 0^d 1^d .. (n-1)^d =======================
+// length of the run of equal entries that ends just before position t (for a sorted u: the number of earlier entries equal to u[t])
+pub open spec fn run_before(u: Seq<usize>, t: int) -> nat decreases t { if t <= 0 { 0 } else if u[t - 1] == u[t] { run_before(u, t - 1) + 1 } else { 0 } }
+proof fn lemma_run_bound(u: Seq<usize>, t: int) requires 0 <= t < u.len() ensures run_before(u, t) <= t decreases t { if t > 0 && u[t - 1] == u[t] { lemma_run_bound(u, t - 1); } }
+pub open spec fn sel_of(u: Seq<usize>, d: nat) -> Seq<usize> { Seq::new(u.len(), |t: int| (u[t] * d + run_before(u, t)) as usize) }
+proof fn lemma_sel_of_facts(u: Seq<usize>, n: nat, d: nat, t: int)
+    requires d >= 1, 1 <= u.len() <= d, sorted_usize(u), forall|a: int| 0 <= a < u.len() ==> (#[trigger] u[a]) < n, 0 <= t < u.len(), n * d <= usize::MAX
+    ensures
+        u[t] * d + run_before(u, t) < n * d, (u[t] * d + run_before(u, t)) / (d as int) == u[t],
+        t + 1 < u.len() ==> u[t] * d + run_before(u, t) < u[t + 1] * d + run_before(u, t + 1),
+{
+    let r = run_before(u, t); let a = u[t] as int; let dd = d as int;
+    lemma_run_bound(u, t);
+    assert(r < dd);
+    assert(a * dd + r < (a + 1) * dd) by (nonlinear_arith) requires r < dd;
+    assert((a + 1) * dd <= n * dd) by (nonlinear_arith) requires a + 1 <= n, dd >= 1;
+    assert((a * dd + r) / dd == a) by { vstd::arithmetic::div_mod::lemma_fundamental_div_mod_converse(a * dd + r, dd, a, r as int); }
+    if t + 1 < u.len() {
+        let b = u[t + 1] as int;
+        if u[t] == u[t + 1] { } else {
+            assert(a < b);
+            assert((a + 1) * dd <= b * dd) by (nonlinear_arith) requires a + 1 <= b, dd >= 1;
+        }
+    }
+}
+proof fn lemma_adjacent_increasing(q: Seq<usize>, a: int, b: int)
+    requires 0 <= a < b < q.len(), forall|t: int| 0 <= t && t + 1 < q.len() ==> (#[trigger] q[t]) < q[t + 1]
+    ensures q[a] < q[b]
+    decreases b - a
+{ if b > a + 1 { lemma_adjacent_increasing(q, a, b - 1); assert(q[b - 1] < q[b - 1 + 1]); } else { assert(q[a] < q[a + 1]); } }
+//@lemma props=C15
+pub proof fn lemma_every_monomial_is_a_selection(orig: Seq<usize>, n: nat, d: nat, u: Seq<usize>)
+    requires d >= 1, n * d <= usize::MAX, orig.len() == n * d, forall|i: int| 0 <= i < orig.len() ==> (#[trigger] orig[i]) == i / (d as int),     // the variable list 0^d 1^d .. (n-1)^d
+        1 <= u.len() <= d, sorted_usize(u), forall|a: int| 0 <= a < u.len() ==> (#[trigger] u[a]) < n,                                         // a monomial of degree k <= d, as the sorted list of its variables
+    ensures valid_sel(orig, sel_of(u, d), u.len()), forall|t: int| 0 <= t < u.len() ==> orig[(#[trigger] sel_of(u, d)[t]) as int] == u[t]
+{
+    let q = sel_of(u, d);
+    assert forall|t: int| 0 <= t < u.len() implies q[t] == u[t] * d + run_before(u, t) && (#[trigger] q[t]) < n * d && orig[q[t] as int] == u[t] by { lemma_sel_of_facts(u, n, d, t); }
+    assert forall|t: int| 0 <= t && t + 1 < q.len() implies (#[trigger] q[t]) < q[t + 1] by { lemma_sel_of_facts(u, n, d, t); lemma_sel_of_facts(u, n, d, t + 1); }
+    assert forall|a: int, b: int| 0 <= a < b < q.len() implies q[a] < q[b] by { lemma_adjacent_increasing(q, a, b); }
+}
+
